@@ -7,7 +7,8 @@ Topology Utilities
 import copy
 import re
 
-from vivarium.library.dict_utils import deep_merge, deep_merge_multi_update
+from vivarium.library.dict_utils import (
+    deep_merge, deep_merge_multi_update, MULTI_UPDATE_KEY)
 
 
 def get_in(d, path, default=None):
@@ -141,6 +142,26 @@ def dict_to_paths(root, d):
         return [(root, d)]
 
 
+_MISSING = object()
+
+
+def _assoc_leaf_update(inverse, path, value, multi_updates):
+    '''Insert a leaf update into ``inverse`` at ``path``.
+
+    When another port variable of the same process already put an
+    update at ``path``, keep both under the multi-update key instead of
+    overwriting the first one.
+    '''
+    if multi_updates:
+        existing = get_in(inverse, path, _MISSING)
+        if existing is not _MISSING:
+            if isinstance(existing, dict) and MULTI_UPDATE_KEY in existing:
+                existing[MULTI_UPDATE_KEY].append(value)
+                return
+            value = {MULTI_UPDATE_KEY: [existing, value]}
+    assoc_path(inverse, path, value)
+
+
 def inverse_topology(outer, update, topology, inverse=None, multi_updates=True):
     '''
     Transform an update from the form its process produced into
@@ -181,7 +202,8 @@ def inverse_topology(outer, update, topology, inverse=None, multi_updates=True):
                             lambda current: deep_merge(
                                 current, child_update))
                     else:
-                        assoc_path(inverse, inner, child_update)
+                        _assoc_leaf_update(
+                            inverse, inner, child_update, multi_updates)
 
         elif key in update:
             value = update[key]
@@ -217,7 +239,8 @@ def inverse_topology(outer, update, topology, inverse=None, multi_updates=True):
                             inner,
                             lambda current: deep_merge(current, value))
                 else:
-                    assoc_path(inverse, inner, value)
+                    _assoc_leaf_update(
+                        inverse, inner, value, multi_updates)
     return inverse
 
 
